@@ -185,6 +185,11 @@ func (w *World) oracleBitcoin(bi *BlockInfo) {
 	// relayer transactions in order
 	for i, msgs := range bi.TxMsgs {
 		m.tips = append(m.tips, m.Tip)
+		if i < len(bi.TxRes) && msgs != nil && bi.TxRes[i].Code != 0 && len(msgs) == 1 {
+			if nd, ok := msgs[0].(*bitcointypes.MsgNewDeposits); ok {
+				w.checkRejectedDeposit(bi, i, nd)
+			}
+		}
 		if i >= len(bi.TxRes) || msgs == nil || bi.TxRes[i].Code != 0 {
 			continue
 		}
@@ -621,4 +626,52 @@ func (w *World) checkAddressRefusal(n *Node, version uint32, err error) {
 		return
 	}
 	w.violate("C17", "address-query-refused", "refused", "node %d refused a deposit address (version %d, schnorr key %v): %v", n.ID, version, isSchnorr, err)
+}
+
+// checkRejectedDeposit (C03, completeness guard): an honestly submitted single deposit that
+// satisfies every condition of the statement at execution time must be credited.
+func (w *World) checkRejectedDeposit(bi *BlockInfo, txi int, msg *bitcointypes.MsgNewDeposits) {
+	st := w.rel().Labels[txHash(bi.B.Txs[txi])]
+	if st == nil || !st.Honest || len(msg.Deposits) != 1 || len(msg.BlockHeaders) != 1 {
+		return
+	}
+	m, cur, prev := w.M.Btc, w.M.Cur, w.M.Prev
+	d := msg.Deposits[0]
+	if prev == nil || d == nil || msg.Proposer != prev.Relayer.Relayer.Proposer {
+		return // the proposer changed between submission and execution
+	}
+	params := cur.Bitcoin.Params
+	blk := w.Btc.Blocks[d.BlockNumber]
+	voted := m.Voted[d.BlockNumber]
+	if blk == nil || voted == nil || !bytes.Equal(voted, blk.Hash) || !bytes.Equal(msg.BlockHeaders[0].Raw, blk.Header) || msg.BlockHeaders[0].Height != d.BlockNumber {
+		return
+	}
+	txid := dsha(d.NoWitnessTx)
+	idx := blk.indexOf(txid)
+	if idx <= 0 || uint32(idx) != d.TxIndex || !bytes.Equal(d.IntermediateProof, blk.proof(idx)) {
+		return // coinbase deposits (maturity) and anything but the genuine proof are not judged here
+	}
+	tx := new(wire.MsgTx)
+	if tx.DeserializeNoWitness(bytes.NewReader(d.NoWitnessTx)) != nil || int(d.OutputIndex) >= len(tx.TxOut) {
+		return
+	}
+	if _, dup := m.Credited[fmt.Sprintf("%x:%d", txid, d.OutputIndex)]; dup {
+		return
+	}
+	if d.RelayerPubkey == nil || !m.Keys[string(relayertypes.EncodePublicKey(d.RelayerPubkey))] {
+		return
+	}
+	var out1 []byte
+	if len(tx.TxOut) > 1 {
+		out1 = tx.TxOut[1].PkScript
+	}
+	out := tx.TxOut[d.OutputIndex]
+	if (d.Version == 1 && d.OutputIndex != 0) || !refDepositScriptOK(d.Version, d.RelayerPubkey, params.DepositMagicPrefix, d.EvmAddress, out.PkScript, out1) {
+		return
+	}
+	if uint64(out.Value) < params.MinDepositAmount {
+		return
+	}
+	w.Stats.OracleEvals["C03"]++
+	w.violate("C03", "valid-deposit-rejected", "rejected", "height %d tx %d: an honestly proven deposit of %d satoshi (bitcoin block %d position %d, voted, script and key valid, never credited) was rejected: %s", bi.B.Height, txi, out.Value, d.BlockNumber, idx, bi.TxRes[txi].Log)
 }
